@@ -75,7 +75,8 @@ const sid = "s"
 
 // a sequential scenario whose call does not return within this time is recorded as "hang"
 // (never a verdict: the check re-runs such scenarios under the scheduler or reports undecided)
-const hangAfter = 5 * time.Second
+// (generous: the machine may be heavily loaded; a real hang is a hang at any threshold)
+const hangAfter = 45 * time.Second
 
 func peerOf(e string) string {
 	if e == "a" {
@@ -727,9 +728,14 @@ func runSeq(sc Scenario, seed int64) result {
 		}
 		done := make(chan struct{})
 		go func() { w.exec("main", o); close(done) }()
+		limit := hangAfter
+		if o.Op == "writes" || o.Op == "readall" {
+			limit += time.Duration(o.N) * 5 * time.Millisecond // tens of thousands of round trips
+			limit += 4 * time.Minute
+		}
 		select {
 		case <-done:
-		case <-time.After(hangAfter):
+		case <-time.After(limit):
 			w.hang = true
 			return false
 		}
